@@ -30,8 +30,9 @@ Proof. exact w_overrun_pinned. Qed.
    CLUSTER_LIST, EXTENDED_COMMUNITY, IPV6_EXTENDED_COMMUNITY, LARGE_COMMUNITY; r malformed per RFC 7606 (Optional /
    Transitive bits in conflict with the type, or the length / value rule of the type broken).  Then the session is
    reset or nothing is announced.  (AS_PATH / AS4_PATH segment structure, the discard types and the MP attributes
-   are judged by the correspondence and the property oracle of harness/c08.py only.) *)
-Theorem C08_rfc7606 : forall opq s other b wb ab nb l r,
+   are judged by the correspondence and the property oracle of harness/c08.py only.)
+   `In (r_code r) taw_codes` is the hypothesis that keeps AS_PATH / AS4_PATH out: see C08_rfc7606_refuted. *)
+Theorem C08_rfc7606_partial : forall opq s other b wb ab nb l r,
   wfb b -> sections b = Some (wb, ab, nb) -> tlvs (length ab) ab = Some l ->
   find_raw l (r_code r) = Some r -> In (r_code r) taw_codes ->
   flags_conflict (r_code r) (r_flags r) || value_malformed other (s_asn4 s) (r_code r) (r_val r) = true ->
@@ -45,11 +46,22 @@ Proof. exact taw_never_announces. Qed.
 
 (* the pinned tree (defect D5): a MED of length 3 is malformed for the reference, the mark is recorded, and the
    route 10.1.2.0/24 is still announced; the repaired decoder reports it withdrawn *)
-Theorem C08_rfc7606_refuted :
+Theorem C08_rfc7606_pinned_refuted :
   verdict (fun _ _ => false) (rs_of s_v4) w_med3 = [1;0; 2;0; 3;0; 4;1]
   /\ announces (dec_update_pinned no_opq s_v4 w_med3) = [(mkN 1 1 None [] [] 24 [10;1;2], [10;0;0;1])]
   /\ ahas (attrs_of (dec_update_pinned no_opq s_v4 w_med3)) CODE_TREAT_AS_WITHDRAW = true.
 Proof. exact w_med3_pinned. Qed.
+
+(* the REPAIRED decoder, known finding: the statement without the type restriction is false.  AS_PATH ( 65001 )
+   followed by a segment of length zero is malformed for the reference (RFC 7606 7.2), yet no mark is recorded, the
+   route is announced and the attribute is reported with an empty second segment.  (The tree keeps this behaviour:
+   a pinned test writes an empty AS_PATH as the segment `02 00`.) *)
+Theorem C08_rfc7606_refuted :
+  verdict (fun _ _ => false) (rs_of s_v4) w_zero_seg = [1;0; 2;1; 3;0]
+  /\ announces (dec_update no_opq s_v4 w_zero_seg) = [(mkN 1 1 None [] [] 24 [10;1;2], [10;0;0;1])]
+  /\ ahas (attrs_of (dec_update no_opq s_v4 w_zero_seg)) CODE_TREAT_AS_WITHDRAW = false
+  /\ aget (attrs_of (dec_update no_opq s_v4 w_zero_seg)) A_AS_PATH = Some (mkA 2 64 (VPath true [(2, [65001]); (2, [])])).
+Proof. exact w_zero_seg_accepted. Qed.
 
 (* the pinned tree: a COMMUNITY with the Optional bit cleared is dropped without a mark, the route is announced
    without it; the repaired decoder announces nothing *)
@@ -68,15 +80,16 @@ Theorem C08_discard_drops_update_refuted :
   /\ ribin_apply false [] u = [] /\ length (ribin_apply true [] u) = 1%nat.
 Proof. exact w_aggr_rib. Qed.
 
-(* non-vacuity: the MED witness meets the hypotheses of C08_rfc7606 on the repaired decoder, which withdraws the route *)
+(* non-vacuity: the MED witness meets the hypotheses of C08_rfc7606_partial on the repaired decoder, which withdraws the route *)
 Example C08_example :
   exists u, dec_update no_opq s_v4 w_med3 = Decoded u /\ u_ann u = [] /\ u_wd u = [mkN 1 1 None [] [] 24 [10;1;2]].
 Proof. exact w_med3_fixed. Qed.
 
 Print Assumptions C08_no_overrun.
 Print Assumptions C08_no_overrun_refuted.
-Print Assumptions C08_rfc7606.
+Print Assumptions C08_rfc7606_partial.
 Print Assumptions C08_treat_as_withdraw_announces_nothing.
+Print Assumptions C08_rfc7606_pinned_refuted.
 Print Assumptions C08_rfc7606_refuted.
 Print Assumptions C08_wrong_flags_refuted.
 Print Assumptions C08_discard_drops_update_refuted.
